@@ -1202,6 +1202,16 @@ func (e *Entry) Augment(addErrors bool) (processed, skipped int) {
 	var unapplied []*Entry
 	for _, a := range e.Augments {
 		target := a.Find(a.Name)
+		// A relative path is looked up from the augment's own entry and can
+		// lead to the augment itself or to one of the nodes it defines.
+		// That is no target: merging the augment into itself would drop it
+		// without a trace.
+		for p := target; p != nil; p = p.Parent {
+			if p == a {
+				target = nil
+				break
+			}
+		}
 		if verifEnabled {
 			if target == nil {
 				verifEmit("augment.skip", "augment", Source(a.Node), "path", a.Name, "final", fmt.Sprint(addErrors))
